@@ -17,6 +17,31 @@ from report import Ledger, AnalysisError  # noqa: E402
 PROPS = ["C%02d" % i for i in range(1, 21)]
 
 
+_LENT = {}
+
+
+def _run_lender(lender, tier, repo):
+    """the lender's rule groups on a ledger of their own (no verdict, no evidence file written)"""
+    k = (lender, tier, repo)
+    if k not in _LENT:
+        lmod = importlib.import_module("rules.%s" % lender.lower())
+        sub = Ledger(lender, tier, repo, quiet=True)
+        try:
+            lmod.run(sub, tier)
+        except AnalysisError:
+            raise
+        except Exception as e:
+            raise AnalysisError("rule module of %s failed: %s: %s" % (lender, type(e).__name__, str(e)[:120]))
+        _LENT[k] = sub
+    return _LENT[k]
+
+
+def borrow_prerequisites(L, prop, tier):
+    import prereq
+    for lender, reason, pred in prereq.PREREQUISITES.get(prop, []):
+        L.borrow(lender, reason, pred, lambda ln: _run_lender(ln, tier, L.repo))
+
+
 def run_property(prop, tier, repo, quiet=False):
     mod = importlib.import_module("rules.%s" % prop.lower())
     L = Ledger(prop, tier, repo, explanation=getattr(mod, "EXPLANATION", ""),
@@ -24,6 +49,7 @@ def run_property(prop, tier, repo, quiet=False):
     for a in getattr(mod, "ASSUMPTIONS", []):
         L.assume(a)
     mod.run(L, tier)
+    borrow_prerequisites(L, prop, tier)
     if tier == "thorough" and os.environ.get("VERIF_NO_SELFTEST") != "1":
         # informational: the checker's own mutation self-test on scratch copies of the tree under analysis
         # (a stale anchor on an already-edited tree must not turn the verdict into an error)
